@@ -36,6 +36,9 @@ type scenario struct {
 	Fault    int   `json:"fault"`
 	WrongAt  int   `json:"wrong_at"`
 	WrongOff int64 `json:"wrong_offset"`
+	// WrongViaCommit: the wrong-offset data, if the writer buffers it, is followed by Commit (so it
+	// travels in the committing request) instead of Close
+	WrongViaCommit bool `json:"wrong_via_commit"`
 }
 
 func (s *scenario) class() string {
@@ -127,10 +130,13 @@ func runScenario(run *evid.Run, reg ociregistry.Interface, repo string, s *scena
 						return
 					}
 				}
-				if werr == nil {
+				if werr == nil && !s.WrongViaCommit {
 					cerr := ww.Close()
 					log("wrong.Close()", cerr)
 					refused = cerr
+				}
+				if werr == nil && s.WrongViaCommit {
+					run.Count("wrong_offset_data_sent_by_commit", 1)
 				}
 				if refused == nil {
 					// the data was accepted at a wrong offset; see whether a commit goes through as well
@@ -343,7 +349,7 @@ func main() {
 	run.SetRule("a case is one upload scenario: (stack, content, partition into Write calls, chunk-size hint, subset of write boundaries with close-and-resume, resume mode {at Size(), -1}, fault {none, wrong-offset resume, wrong commit digest}). Enumerated completely for content lengths 0..L on the in-memory registry (quick L=6, thorough L=9) and 0..5/0..7 over one HTTP hop; sampled for the other stacks and for contents of up to 5 registry chunks (8 KiB) with hints around the minimum. " +
 		"distinct_nontrivial = distinct (stack, length class, number of writes, hint class, number of resumes, resume mode, fault) shapes; the trivial case is the single-write upload without resume.")
 	run.Assume("resume with offset -1 when exactly one byte has been received is excluded (the property's own exclusion: the status Range header cannot distinguish zero bytes from one byte)")
-	run.Assume("a wrong-offset resume may surface at Write, Close or Commit of that writer (the HTTP client buffers)")
+	run.Assume("a wrong-offset resume may surface at Write, Close or Commit of that writer (the HTTP client buffers); buffered wrong-offset data is followed by Close in half of the cases and directly by Commit in the other half")
 
 	w := &world{run: run, built: map[string]*stack.Built{}, n: map[string]int{}}
 	hints := []int{-1, 0, 1, 2, 3, 100}
@@ -446,6 +452,7 @@ func main() {
 			if len(parts) > 0 {
 				s.Fault = 1
 				s.WrongAt = rng.IntN(len(parts))
+				s.WrongViaCommit = rng.IntN(2) == 0
 				recv := int64(0)
 				for j := 0; j < s.WrongAt; j++ {
 					recv += int64(parts[j])
@@ -482,6 +489,7 @@ func main() {
 	run.FloorCounter("clean_commits", 1000)
 	run.FloorCounter("resumes", 500)
 	run.FloorCounter("wrong_offset_resumes", 50)
+	run.FloorCounter("wrong_offset_data_sent_by_commit", 10)
 	run.FloorCounter("wrong_digest_commits", 50)
 	run.Finish()
 }
